@@ -140,6 +140,9 @@ def stepCfg (_ : Unit) : List String → Unit × String
         { parses := true, formatOK := true, keyListed := ag && granted == "1", chainOK := chain, callbackOK := true }
       ((), "h=" ++ b01 (policyAccepts pol facts))
     | _, _, _, _ => ((), "bad-op")
+  -- a hidden-mode server, wherever its KEM key is configured: silent towards ClientHello
+  -- (C19_hidden_silent_dispatch), serving the client that proves knowledge of the KEM key
+  | ["hid", k] => if k = "top" ∨ k = "names" ∨ k = "both" then ((), "d=0 k=1") else ((), "bad-op")
   | ["sni", k] =>
     -- virtual hosts `srv.example` (0), `10.0.0.*` and `\xff*` (1), no fallback.  The server matches the LABEL
     -- of the requested name against the patterns (glob, C20) whatever its type byte; a name that matches no
